@@ -1,6 +1,7 @@
 package main
 
 import (
+	"sort"
 	"fmt"
 	"math/rand"
 	"strings"
@@ -100,10 +101,46 @@ func genVersionsCase(r *rand.Rand, cfg Cfg, op string, big bool) Case {
 }
 
 func famDiffLinks(f *FamCtx) {
-	f.Report.Rule = "2-6 persisted versions per case (ancestor/descendant chains with 1-4 or up to 40 changes, siblings, unrelated trees, different heights, empty and emptied versions), each reloaded from its root; DiffLinks on ordered pairs: reported names compared with the model's literal diffOne + alreadyNotified, with the reachable sets decoded from the store (complete / within / once), a replica store holding old + added nodes must load and fully iterate the new version; a link callback that stops or fails after j events must see exactly the first events and have its error returned; non-trivial = reached height >= 1 and changed height"
+	f.Report.Rule = "2-6 persisted versions per case (ancestor/descendant chains with 1-4 or up to 40 changes, siblings, unrelated trees, different heights, empty and emptied versions), each reloaded from its root; DiffLinks on ordered pairs: reported names compared with the model's literal diffOne + alreadyNotified, with the reachable sets decoded from the store (complete / within / once), a replica store holding old + added nodes must load and fully iterate the new version; a link callback that stops or fails after j events must see exactly the first events and have its error returned; one case in five: every Load position of every DiffLinks fails once (an error, or else the complete answer); non-trivial = reached height >= 1 and changed height"
 	f.Gen = func() Case { return genVersionsCase(f.Rand, RandCfg(f.Rand), "difflinks", false) }
 	n := f.N(250, 10000)
 	for i := 0; i < n; i++ {
+		if i%5 == 4 {
+			// the same node diffs on a store whose k-th Load fails once, for every k: DiffLinks either
+			// returns the error, or — when a retry inside it succeeded — the complete answer
+			c := genVersionsCase(f.Rand, RandCfg(f.Rand), "difflinks", false)
+			var ops []string
+			for _, op := range c.Ops {
+				switch {
+				case strings.HasPrefix(op, "isoload "):
+					ops = append(ops, "load "+strings.TrimPrefix(op, "isoload "))
+				case strings.HasPrefix(op, "difflinks "):
+					ops = append(ops, "faultall load "+op)
+				case strings.HasPrefix(op, "difflinksstop "), strings.HasPrefix(op, "difflinkserr "):
+				default:
+					ops = append(ops, op)
+				}
+			}
+			c.Ops = ops
+			// after a swallowed failure the SET of reported names is what is compared
+			fr := faultRunner
+			fr.Norm = func(line, obs string) string {
+				if !strings.HasPrefix(line, "faultall load difflinks ") || strings.HasPrefix(obs, "err") {
+					return obs
+				}
+				evs := strings.Fields(obs)
+				sort.Strings(evs)
+				var out []string
+				for i, e := range evs {
+					if i == 0 || evs[i-1] != e {
+						out = append(out, e)
+					}
+				}
+				return strings.Join(out, " ")
+			}
+			f.RunTreeCase(c, fr, multiLevel)
+			continue
+		}
 		f.RunTreeCase(f.Gen(), exactRunner, multiLevel)
 	}
 }
